@@ -20,7 +20,7 @@ from simkit import model_world as M
 from simkit.core import EventLog, SutError, Violations, canon, sha
 from simkit.props.C01 import assignables
 
-RUN_CAP_S = 120
+RUN_CAP_S = 900
 ROUNDTRIPS = ["pop", "copy_nv", "deepcopy", "save_bytes", "save_file"]
 NODE_MUTATORS = ["name", "needs_seed", "add_inputs", "set_inputs"]
 CALC_MUTATORS = ["function"]
